@@ -85,6 +85,13 @@ class MultiprocessingShim:
     def cpu_count(self):
         return self._n_cpu
 
+    def __getattr__(self, name):
+        # anything else of the multiprocessing API is not modelled: that is
+        # a limit of the simulator, never a verdict on the code under test
+        raise HarnessError(
+            f'multiprocessing.{name} is not modelled by the simulated '
+            'cluster')
+
 
 class Cluster:
     def __init__(self, sim, mode, n_cpu, listing_perm, sched=None):
